@@ -7,7 +7,7 @@ Import ListNotations.
 Open Scope list_scope.
 
 Definition put_of (c : change) : option (bytes * bool) :=
-  if changed_content (enode (c_old c)) (enode (c_new c))
+  if reupload c
   then Some (text_of (enode (c_new c)), exec_of (enode (c_new c)))
   else None.
 
@@ -17,54 +17,102 @@ Definition stageP (kc : nat * change) : mv := mkmv (oldp kc) [Tmp (fst kc)] (put
 Definition finP (kc : nat * change) : mv := mkmv [Tmp (fst kc)] (newp kc) None.
 Definition numbered (n : nat) (l : list change) : list (nat * change) :=
   combine (seq n (length l)) l.
+Definition is_dir_node (n : node) : bool := match n with Dir => true | _ => false end.
+
+(* the renamed changes that are really renamed on the remote / re-created *)
+Definition moves_of (l : list change) : list change := filter (fun c => negb (recreate c)) l.
+Definition recs_of (l : list change) : list change := filter recreate l.
 
 Definition ren_cmd (c : change) : list cmd :=
-  (match put_of c with
-   | Some (t, x) => [UploadFile (epath (c_old c)) t x]
-   | None => []
-   end) ++ [RenameRemote (epath (c_old c)) (epath (c_new c))].
+  if recreate c
+  then [match enode (c_old c) with
+        | Dir => DeleteDirMaybe (epath (c_old c))
+        | _ => DeleteFile (epath (c_old c))
+        end]
+  else (match put_of c with
+        | Some (t, x) => [UploadFile (epath (c_old c)) t x]
+        | None => []
+        end) ++ [RenameRemote (epath (c_old c)) (epath (c_new c))].
 
 Lemma cmds_renamed_noign new l : tign new = [] -> cmds_renamed new l = flat_map ren_cmd l.
 Proof.
   intros H. unfold cmds_renamed. apply flat_map_ext. intros c.
-  rewrite !is_ignored_nil by exact H. simpl. unfold ren_cmd, put_of.
-  destruct (changed_content _ _); reflexivity.
+  unfold both_ignored. rewrite !is_ignored_nil by exact H. simpl. unfold ren_cmd, put_of.
+  destruct (recreate c); [reflexivity|]. destruct (reupload c); reflexivity.
 Qed.
 
 Lemma numbered_cons n c l : numbered n (c :: l) = (n, c) :: numbered (S n) l.
 Proof. reflexivity. Qed.
 
-(* the staging commands are the moves  old_i -> tmp_i *)
+(* the rename loop as a list of moves (old_i -> tmp_i) and leaf deletions *)
+Fixpoint mixed (n : nat) (l : list change) : list item :=
+  match l with
+  | [] => []
+  | c :: r => if recreate c
+              then IRm (epath (c_old c)) (is_dir_node (enode (c_old c))) :: mixed n r
+              else IMv (stageP (n, c)) :: mixed (S n) r
+  end.
+
+Lemma mvs_of_mixed l : forall n, mvs_of (mixed n l) = map stageP (numbered n (moves_of l)).
+Proof.
+  induction l as [|c l IH]; intros n; simpl; [reflexivity|].
+  unfold moves_of in *. simpl filter. destruct (recreate c); simpl negb; cbv iota; [apply IH|].
+  rewrite numbered_cons. simpl. rewrite IH. reflexivity.
+Qed.
+
+Lemma rms_of_mixed l : forall n, rms_of (mixed n l) = map (fun c => epath (c_old c)) (recs_of l).
+Proof.
+  induction l as [|c l IH]; intros n; simpl; [reflexivity|].
+  unfold recs_of in *. simpl. destruct (recreate c); simpl; [rewrite IH; reflexivity|apply IH].
+Qed.
+
 Lemma run_stage : forall l u f',
-  moves (map stageP (numbered (ntmp u) l)) (ufs u) = (f', None) ->
+  run_items (mixed (ntmp u) l) (ufs u) = (f', None) ->
   run (flat_map ren_cmd l) u =
   (mkust f' (pdel u)
-         (pren u ++ map (fun m => (m_a m, m_b m)) (map finP (numbered (ntmp u) l)))
-         (ntmp u + length l), None).
+         (pren u ++ map (fun m => (m_a m, m_b m)) (map finP (numbered (ntmp u) (moves_of l))))
+         (ntmp u + length (moves_of l)), None).
 Proof.
   induction l as [|c l IH]; intros u f' H.
   - simpl in *. inversion H; subst. destruct u; simpl. rewrite app_nil_r, Nat.add_0_r. reflexivity.
-  - rewrite numbered_cons in H. simpl in H.
-    destruct (exec_mv (stageP (ntmp u, c)) (ufs u)) as [f1|e] eqn:E; [|discriminate].
-    unfold exec_mv in E. simpl in E.
-    simpl flat_map. unfold ren_cmd at 1.
-    assert (exists u1, run ((match put_of c with
-                             | Some (t, x) => [UploadFile (epath (c_old c)) t x]
-                             | None => [] end) ++
-                            [RenameRemote (epath (c_old c)) (epath (c_new c))]) u = (u1, None)
-                       /\ ufs u1 = f1 /\ pdel u1 = pdel u /\ ntmp u1 = S (ntmp u)
-                       /\ pren u1 = pren u ++ [([Tmp (ntmp u)], epath (c_new c))])
-      as (u1 & R1 & F1 & D1 & N1 & P1).
-    { unfold oldp in E. simpl in E.
-      destruct (put_of c) as [[t x]|].
-      - destruct (t_put (epath (c_old c)) t x (ufs u)) as [fp|] eqn:Ep; [|discriminate].
-        simpl. rewrite Ep. simpl. rewrite E. eexists. split; [reflexivity|]. simpl. auto.
-      - simpl. rewrite E. eexists. split; [reflexivity|]. simpl. auto. }
-    rewrite run_app, R1.
-    rewrite (IH u1 f').
-    + rewrite numbered_cons. simpl. rewrite D1, N1, P1, <- app_assoc. simpl.
-      f_equal. f_equal. lia.
-    + rewrite N1, F1. exact H.
+  - simpl mixed in H. simpl flat_map. unfold ren_cmd at 1. unfold moves_of. simpl filter.
+    destruct (recreate c) eqn:RC; simpl negb; cbv iota.
+    + (* re-created: removed at its old path *)
+      simpl in H.
+      assert (exists u1, run [match enode (c_old c) with
+                              | Dir => DeleteDirMaybe (epath (c_old c))
+                              | _ => DeleteFile (epath (c_old c)) end] u = (u1, None)
+                         /\ run_items (mixed (ntmp u1) l) (ufs u1) = (f', None)
+                         /\ pdel u1 = pdel u /\ ntmp u1 = ntmp u /\ pren u1 = pren u)
+        as (u1 & R1 & H1 & D1 & N1 & P1).
+      { destruct (enode (c_old c)); simpl in *.
+        - destruct (t_delete (epath (c_old c)) (ufs u)) as [f1|] eqn:E; [|discriminate].
+          eexists. split; [reflexivity|]. simpl. auto.
+        - destruct (t_rmdir (epath (c_old c)) (ufs u)) as [f1|] eqn:E; [|discriminate].
+          eexists. split; [reflexivity|]. simpl. auto.
+        - destruct (t_delete (epath (c_old c)) (ufs u)) as [f1|] eqn:E; [|discriminate].
+          eexists. split; [reflexivity|]. simpl. auto. }
+      rewrite run_app, R1. rewrite (IH u1 f' H1). rewrite D1, N1, P1. reflexivity.
+    + simpl in H.
+      destruct (exec_mv (stageP (ntmp u, c)) (ufs u)) as [f1|e] eqn:E; [|discriminate].
+      unfold exec_mv in E. simpl in E.
+      assert (exists u1, run ((match put_of c with
+                               | Some (t, x) => [UploadFile (epath (c_old c)) t x]
+                               | None => [] end) ++
+                              [RenameRemote (epath (c_old c)) (epath (c_new c))]) u = (u1, None)
+                         /\ ufs u1 = f1 /\ pdel u1 = pdel u /\ ntmp u1 = S (ntmp u)
+                         /\ pren u1 = pren u ++ [([Tmp (ntmp u)], epath (c_new c))])
+        as (u1 & R1 & F1 & D1 & N1 & P1).
+      { unfold oldp in E. simpl in E.
+        destruct (put_of c) as [[t x]|].
+        - destruct (t_put (epath (c_old c)) t x (ufs u)) as [fp|] eqn:Ep; [|discriminate].
+          simpl. rewrite Ep. simpl. rewrite E. eexists. split; [reflexivity|]. simpl. auto.
+        - simpl. rewrite E. eexists. split; [reflexivity|]. simpl. auto. }
+      rewrite run_app, R1.
+      rewrite (IH u1 f').
+      * rewrite numbered_cons. simpl. rewrite D1, N1, P1, <- app_assoc. simpl.
+        unfold moves_of, newp. simpl. f_equal. f_equal. lia.
+      * rewrite N1, F1. exact H.
 Qed.
 
 Lemma renames_moves prs f :
